@@ -193,6 +193,25 @@ func genC04(tier string, seed uint64, emit func(string)) {
 				dec(assemble(kind, t, claimOrder, nil, false))
 			}
 		}
+		// 1b. every component field x value classes (empty / short texts, null, wrong types, byte-string sizes), in second position
+		for _, ck := range []uint64{1, 2, 4, 5, 6} {
+			for _, v := range []cv{cText(""), cText("x"), cNull, cBytes(rb(32, 1)), cBytes(rb(31, 1)), cBytes(nil), cUint(1), cText("\xff"), cArray(cUint(1)), cTrue} {
+				base := validToken(kind, r)
+				ps := []kvp{}
+				for _, k := range []uint64{1, 2, 4, 5, 6} {
+					switch {
+					case k == ck:
+						ps = append(ps, kvp{cUint(k), v})
+					case k == 2 || k == 5:
+						ps = append(ps, kvp{cUint(k), cBytes(rb(32, byte(k)))})
+					case r.intn(2) == 0:
+						ps = append(ps, kvp{cUint(k), cText([]string{"", "t"}[r.intn(2)])})
+					}
+				}
+				base["swc"] = cArray(validComp(r), cMap(ps...))
+				dec(assemble(kind, base, claimOrder, nil, false))
+			}
+		}
 		// the other profile's keys mixed in
 		other := p1Keys
 		if kind == 1 {
@@ -208,7 +227,7 @@ func genC04(tier string, seed uint64, emit func(string)) {
 		// 2. valid tokens: permuted key order, extra unknown keys, indefinite length, duplicates
 		n := 1500
 		if tier == "thorough" {
-			n = 60000
+			n = 18000
 		}
 		extras := extraKeyClasses()
 		for i := 0; i < n; i++ {
